@@ -169,3 +169,43 @@ func Harness_C05_nestedLists() {
 	zzsym.Assert(zzsym.Quiesce() == 0, "nothing is left running after the request ended")
 	zzsym.Reach("c05.nested")
 }
+
+func Setup_C05_streamCancel() { probeSetup() }
+
+// Harness_C05_streamCancel: a subscription over a live source - the resolver
+// hands out 0..2 events and then keeps its channel open, it only stops
+// sending when the context ends (it never closes the channel, which a
+// resolver is free not to do) - consumed for k responses, after which the
+// caller goes away (context cancelled): the response function then returns
+// nil after at most the events still buffered; it never waits for the
+// resolver to close the channel, and nothing is left running.
+func Harness_C05_streamCancel() {
+	doc := mustLoad([]string{`subscription { watch { id best { id } } }`, `subscription { strictWatch { id } }`}[zzsym.Choice("query", 2)])
+	w := newWorld(0, false)
+	w.liveStream = true
+	ctx, cancel := context.WithCancel(context.Background())
+	es := newES(w)
+	ex := newExecutorFor(es, w)
+	oc := opCtxFor(w, doc, nil)
+	oc.Operation = doc.Operations[0]
+	rh, ctx2 := ex.DispatchOperation(graphql.StartOperationTrace(ctx), oc)
+	take := zzsym.Choice("take", 3)
+	if take > len(w.subEvents) {
+		take = len(w.subEvents) // without a cancellation the next call would rightly wait for the source
+	}
+	for k := 0; k < take; k++ {
+		zzsym.Assert(rh(ctx2) != nil, "a buffered event is answered")
+	}
+	cancel()
+	left := len(w.subEvents) - take
+	ended := false
+	for k := 0; k <= left; k++ {
+		if rh(ctx2) == nil {
+			ended = true
+			break
+		}
+	}
+	zzsym.Assert(ended, "after the cancellation the stream ends once the buffered events are answered")
+	zzsym.Assert(zzsym.Quiesce() == 0, "nothing is left running after a cancelled subscription")
+	zzsym.Reach("c05.streamcancel")
+}
